@@ -395,3 +395,86 @@ Proof.
   destruct (dispatch_on (r_methods rt) cs) as [m0 [h0 mn]|al] eqn:F; [|discriminate].
   intros [= <- <- <- <- <-]. exists nm, vs, rt, mn. auto.
 Qed.
+
+(* ---------- every method table of a reachable router is an edit history ---------- *)
+
+Definition tables_ok (R : router) : Prop :=
+  Forall (fun rt => exists ops, r_methods rt = mrun ops) (heap R).
+
+Lemma mrun_snoc ops o : mrun (ops ++ [o]) = mstep (mrun ops) o.
+Proof. unfold mrun. now rewrite fold_left_app. Qed.
+
+Lemma Forall_heap_set (P : route -> Prop) h : forall d r,
+  Forall P h -> P r -> Forall P (heap_set h d r).
+Proof.
+  induction h as [|x h IH]; intros d r Hh Hr; simpl; [constructor|].
+  inversion Hh; subst. destruct d; constructor; auto.
+Qed.
+
+Lemma tables_ok_add R rule p nm fl ms h name ow :
+  tables_ok R -> tables_ok (fst (rt_add R rule p nm fl ms h name ow)).
+Proof.
+  unfold tables_ok, rt_add. intros H.
+  set (found := match rt_match R p fl with Some d => inl (R, d) | None => _ end).
+  assert (Hf : match found with
+               | inl (R1, d) => Forall (fun rt => exists ops, r_methods rt = mrun ops) (heap R1)
+               | inr _ => True
+               end).
+  { unfold found. destruct (rt_match R p fl); [exact H|].
+    destruct (set_at (tree R) p fl 0 (IData (length (heap R))) nm); [|exact I].
+    simpl. apply Forall_app. split; [exact H|]. constructor; [|constructor]. now exists []. }
+  destruct found as [[R1 d]|e]; [|exact H].
+  destruct (nth_error (heap R1) d) as [rt|] eqn:E; [|exact Hf].
+  assert (Hrt : exists ops, r_methods rt = mrun ops).
+  { rewrite Forall_forall in Hf. apply Hf. eapply nth_error_In; eauto. }
+  destruct Hrt as [ops Hops].
+  assert (Hset : forall t', (if ow then Some (mt_set_all (r_methods rt) (norm_methods ms) (h, nm))
+                             else mt_add (r_methods rt) (norm_methods ms) (h, nm)) = Some t' ->
+                            exists ops', t' = mrun ops').
+  { intros t' Ht. destruct ow.
+    - injection Ht as <-. exists (ops ++ [MSet ms (h, nm)]). rewrite mrun_snoc, <- Hops. reflexivity.
+    - exists (ops ++ [MAdd ms (h, nm)]). rewrite mrun_snoc, <- Hops. simpl. now rewrite Ht. }
+  destruct (if ow then Some _ else mt_add _ _ _) as [t'|]; [|exact Hf].
+  destruct (Hset t' eq_refl) as [ops' Hops'].
+  assert (G : Forall (fun rt0 => exists ops0, r_methods rt0 = mrun ops0)
+                     (heap_set (heap R1) d (set_methods rt t'))).
+  { apply Forall_heap_set; [exact Hf|]. now exists ops'. }
+  destruct name as [[|c nme]|]; simpl; try exact G.
+  destruct (al_get (named R1) (c :: nme)) as [d0|]; simpl; [|exact G].
+  destruct (negb ow && negb (Nat.eqb d0 d)); exact G.
+Qed.
+
+Lemma tables_ok_step R c : tables_ok R -> tables_ok (fst (run_cmd R c)).
+Proof.
+  intros H. destruct c; simpl; try exact H.
+  - pose proof (tables_ok_add R rule pattern nm flts methods h name overwrite H) as G.
+    destruct (rt_add R rule pattern nm flts methods h name overwrite). exact G.
+  - unfold rt_remove_pattern. destruct (rd_remove (tree R) pattern false); [|exact H].
+    destruct (ends_star pattern); exact H.
+  - unfold rt_remove_name. destruct (al_get (named R) name); [|exact H].
+    destruct (pattern_of_rid R r); [|exact H].
+    destruct (rd_remove (tree R) s false); [|exact H].
+    destruct (al_get (routes R) s); exact H.
+  - unfold rt_add_hook. destruct (rt_match_hooks R pattern); [exact H|].
+    destruct (set_at _ _ _ _ _ _); exact H.
+  - unfold rt_remove_hook. destruct (rd_remove (tree R) pattern true); exact H.
+  - unfold rt_remove_method. destruct (rt_match R pattern flts) as [d|]; [|exact H].
+    destruct (nth_error (heap R) d) as [rt|] eqn:E; [|exact H].
+    unfold tables_ok in *. simpl. apply Forall_heap_set; [exact H|].
+    assert (Hrt : exists ops, r_methods rt = mrun ops).
+    { rewrite Forall_forall in H. apply H. eapply nth_error_In; eauto. }
+    destruct Hrt as [ops Hops]. exists (ops ++ [MRemove ms]). rewrite mrun_snoc, <- Hops. reflexivity.
+Qed.
+
+Lemma tables_ok_exec cs : forall R, tables_ok R -> tables_ok (exec_cmds R cs).
+Proof.
+  unfold exec_cmds. induction cs as [|c cs IH]; intros R H; simpl; [exact H|].
+  apply IH. now apply tables_ok_step.
+Qed.
+
+Lemma reachable_tables_lemma : forall cs rt,
+  In rt (heap (exec_cmds router0 cs)) -> exists ops, r_methods rt = mrun ops.
+Proof.
+  intros cs rt Hin. pose proof (tables_ok_exec cs router0 (Forall_nil _)) as H.
+  unfold tables_ok in H. rewrite Forall_forall in H. now apply H.
+Qed.
